@@ -482,10 +482,7 @@ func (x *Exec) opAllocate(st *Step) { //nolint:cyclop,gocyclo,maintidx
 	}
 	fam := st.Fam
 	if fam == 0 {
-		fam = 1
-		if !x.w.cfg.Strict && x.w.cfg.ServerV6 {
-			fam = 2
-		}
+		fam = x.w.defaultFamily(c)
 	}
 	relay := &net.UDPAddr{IP: rip, Port: rport}
 	a := &MAlloc{
